@@ -504,6 +504,10 @@ func main() {
 		hunt(o)
 		return
 	}
+	if o.Extra == "known" {
+		known(o)
+		return
+	}
 	if o.Replay != "" {
 		b, err := os.ReadFile(o.Replay)
 		if err != nil {
